@@ -623,6 +623,32 @@ func c03ModuleLevel(r *fw.Rec) {
 	b.NewRet(ci(types.I32, 0))
 	c03CheckModule(r, "module-level", m)
 	c03BlockAddresses(r)
+	c03AddrSpaces(r)
+}
+
+// c03AddrSpaces sets the address space of a global, a function and an alloca
+// after construction (the only way the API offers) and uses them: the uses
+// must be printed with the pointer type in that address space.
+func c03AddrSpaces(r *fw.Rec) {
+	m := ir.NewModule()
+	g := m.NewGlobalDef("g", ci(types.I32, 7))
+	g.AddrSpace = 3
+	callee := m.NewFunc("callee", types.I32, ir.NewParam("x", types.I32))
+	callee.AddrSpace = 1
+	callee.NewBlock("").NewRet(callee.Params[0])
+	f := m.NewFunc("main", types.I32)
+	b := f.NewBlock("entry")
+	a := b.NewAlloca(types.I32)
+	a.AddrSpace = 5
+	v := b.NewLoad(types.I32, g)
+	b.NewStore(v, a)
+	w := b.NewLoad(types.I32, a)
+	c := b.NewCall(callee, w)
+	c.AddrSpace = 1 // LLVM wants the address space of the callee spelled on the call
+	b.NewRet(c)
+	if p, msg, _ := fw.Guard(func() { c03CheckModule(r, "address-spaces-set-after-construction", m) }); p {
+		r.Violate(fw.Violation{Key: "constructor-panics/address-spaces-set-after-construction", What: firstLine(msg)})
+	}
 }
 
 // c03BlockAddresses builds the uses of unnamed blocks from outside their
